@@ -202,4 +202,12 @@ HAND = [
             "/p/more.ts": 'export const d = true as const;\nexport const e = ["p", "q"] as const;\n',
         },
     },
+    {
+        "id": "h_sanitised_path_clash",
+        "files": {
+            "/p/entry.ts": E + 'import { User as U1 } from "./a-b/types";\nimport { User as U2 } from "./a_b/types";\nparse.buildParsers<{ U1: U1; U2: U2 }>();\n',
+            "/p/a-b/types.ts": 'export type User = { id: string };\n',
+            "/p/a_b/types.ts": 'export type User = { id: number; name: string };\n',
+        },
+    },
 ]
